@@ -7,6 +7,7 @@ import (
 	"math/rand"
 	"os"
 	"path/filepath"
+	"sort"
 	"strings"
 
 	"github.com/echovault/sugardb/sugardb"
@@ -160,7 +161,7 @@ func c11History(ctx *Ctx, hi int) {
 	if !start(true) {
 		return
 	}
-	users := []string{"u1", "u2"}
+	users := []string{"u1", "u2", "u3"}
 	pws := []string{"p1", "p2", "p3"}
 	// probe every connection against the reference
 	probe := func(after string) bool {
@@ -199,6 +200,34 @@ func c11History(ctx *Ctx, hi int) {
 				}
 				if g, _, gerr := c.c.Do("GET", "probe"); gerr == nil && !g.IsError() {
 					fail("identity", fmt.Sprintf("after %s: connection %d must not be able to act (user %q) but GET replied %s", after, ci, c.user, g.String()))
+					return false
+				}
+			}
+		}
+		// the set of users the server knows is the reference's
+		if admin != nil {
+			if v, _, err := admin.Do("ACL", "USERS"); err == nil && v.IsSeq() {
+				got := map[string]bool{}
+				for _, e := range v.Elems {
+					t, _ := e.Text()
+					got[t] = true
+				}
+				var missing, extra []string
+				for n := range tab {
+					if !got[n] {
+						missing = append(missing, n)
+					}
+				}
+				for n := range got {
+					if _, ok := tab[n]; !ok {
+						extra = append(extra, n)
+					}
+				}
+				sort.Strings(missing)
+				sort.Strings(extra)
+				ctx.Eval(1)
+				if len(missing)+len(extra) > 0 {
+					fail("users", fmt.Sprintf("after %s: ACL USERS lists %s; users that should exist and do not: %v; users that should not exist and do: %v", after, trunc(v.String(), 120), missing, extra))
 					return false
 				}
 			}
@@ -280,23 +309,32 @@ func c11History(ctx *Ctx, hi int) {
 			tab[u] = cur
 			ctx.Class(fmt.Sprintf("setuser|new=%v|enabled=%v|nopass=%v|pw=%d", !exists, cur.Enabled, cur.NoPass, len(cur.Plain)+len(cur.Hash)))
 		case x == 3: // DELUSER
-			u := append(users, "default", "ghost")[r.Intn(4)]
-			desc = "ACL DELUSER " + u
-			v, _, err := admin.Do("ACL", "DELUSER", u)
+			u := append(append([]string{}, users...), "default", "ghost")[r.Intn(len(users)+2)]
+			// one user, or several users in one command (in any order, possibly with repeats)
+			names := []string{u}
+			if r.Intn(3) == 0 {
+				for len(names) < 2+r.Intn(2) {
+					names = append(names, append(append([]string{}, users...), "ghost")[r.Intn(len(users)+1)])
+				}
+			}
+			desc = "ACL DELUSER " + strings.Join(names, " ")
+			v, _, err := admin.Do(append([]string{"ACL", "DELUSER"}, names...)...)
 			if err != nil {
 				fail("deluser", desc+": admin connection lost")
 				return
 			}
 			_ = v
-			if u != "default" {
-				if _, had := tab[u]; had {
-					for _, c := range conns {
-						if c.c != nil && c.user == u {
-							c.authd, c.doomed = false, true
+			for _, u := range names {
+				if u != "default" {
+					if _, had := tab[u]; had {
+						for _, c := range conns {
+							if c.c != nil && c.user == u {
+								c.authd, c.doomed = false, true
+							}
 						}
 					}
+					delete(tab, u)
 				}
-				delete(tab, u)
 			}
 			ctx.Class("deluser|" + map[bool]string{true: "default", false: "other"}[u == "default"])
 		case x < 8: // AUTH
@@ -304,7 +342,7 @@ func c11History(ctx *Ctx, hi int) {
 			if c.c == nil {
 				continue
 			}
-			u := append(users, "default", "ghost")[r.Intn(4)]
+			u := append(append([]string{}, users...), "default", "ghost")[r.Intn(len(users)+2)]
 			pool := append([]string{}, pws...)
 			pool = append(pool, "adminpw", "wrong", sha("p1"), "")
 			pw := pool[r.Intn(len(pool))]
